@@ -517,6 +517,13 @@ impl Ctx {
 		for (k, v) in self.extra.lock().unwrap().iter() {
 			cov.insert(k.clone(), v.clone());
 		}
+		{
+			let w = crate::props::HISTORIES[0].load(Ordering::Relaxed);
+			let sb = crate::props::HISTORIES[1].load(Ordering::Relaxed);
+			if w + sb > 0 {
+				cov.insert("call_histories".into(), json!({"cases_preceded_by_a_different_configuration_workload_incl_failing_calls": w, "cases_preceded_by_a_near_identical_sibling_incl_failing_calls": sb}));
+			}
+		}
 		let tc = transport_counts();
 		if !tc.is_empty() {
 			cov.insert("transports".into(), json!(tc));
@@ -592,6 +599,14 @@ fn load_known(root: &str) -> Vec<Known> {
 	v
 }
 
+/// Keys of the deterministic predecessor ("warm-up") that runs before a case — see props::warmup.
+pub fn warm_key_dna(dna: &[u8]) -> u64 {
+	xxhash_rust::xxh3::xxh3_64(dna) ^ 0x77
+}
+pub fn warm_key_enum(kind: &str, i: usize) -> u64 {
+	xxhash_rust::xxh3::xxh3_64(format!("{}#{}", kind, i).as_bytes())
+}
+
 pub fn hash_bytes(b: &[u8]) -> u64 {
 	xxhash_rust::xxh3::xxh3_64(b)
 }
@@ -604,9 +619,19 @@ pub fn unhex(s: &str) -> Vec<u8> {
 	(0..s.len() / 2).map(|i| u8::from_str_radix(&s[2 * i..2 * i + 2], 16).unwrap_or(0)).collect()
 }
 
+thread_local! {
+	/// the case evaluated before the current one on this thread (for failures that depend on call history)
+	static PREV_DNA: std::cell::RefCell<Vec<u8>> = std::cell::RefCell::new(Vec::new());
+}
+
+/// run `g` on a brand-new thread (fresh thread-locals)
+fn on_fresh_thread<T: Send>(g: impl FnOnce() -> T + Send) -> T {
+	std::thread::scope(|s| s.spawn(g).join().expect("fresh thread"))
+}
+
 /// One generated-case kind of a property: `f(dna, counting)`.
 /// Runs `cases` proptest cases split over WORKERS fixed worker threads; on a failure the DNA is
-/// shrunk by proptest, the minimal case re-run, reported, and Some(path) returned.
+/// shrunk by proptest, a candidate that reproduces on a fresh thread is chosen (see below), reported, and Some(path) returned.
 pub fn run_dna<F>(ctx: &Ctx, kind: &str, cases: usize, dna_max: usize, f: F) -> Option<String>
 where
 	F: Fn(&[u8], bool) -> Result<(), Fail> + Sync,
@@ -617,7 +642,13 @@ where
 	}
 	let per = (cases + WORKERS - 1) / WORKERS;
 	let label_hash = xxhash_rust::xxh3::xxh3_64(format!("{}/{}", ctx.prop, kind).as_bytes());
-	let found: Mutex<Option<(Vec<u8>, Fail)>> = Mutex::new(None);
+	// (dna, history, fail)
+	let found: Mutex<Option<(Vec<u8>, Vec<Vec<u8>>, Fail)>> = Mutex::new(None);
+	let inner = f;
+	let f = |dna: &[u8], counting: bool| {
+		crate::props::warmup(warm_key_dna(dna));
+		inner(dna, counting)
+	};
 	std::thread::scope(|s| {
 		for w in 0..WORKERS {
 			let f = &f;
@@ -635,17 +666,23 @@ where
 				let mut runner = TestRunner::new(cfg);
 				let failed = AtomicBool::new(false);
 				let last_fail: Mutex<Option<Fail>> = Mutex::new(None);
+				// the first failing case as generated (before shrinking) and its predecessor on this thread
+				let first: Mutex<Option<(Vec<u8>, Vec<u8>)>> = Mutex::new(None);
 				let strat = proptest::collection::vec(any::<u8>(), dna_max.min(96)..=dna_max);
 				let r = runner.run(&strat, |dna| {
 					let counting = !failed.load(Ordering::Relaxed);
 					if counting && ctx.stop.load(Ordering::Relaxed) {
 						return Ok(());
 					}
+					let prev = PREV_DNA.with(|p| std::mem::replace(&mut *p.borrow_mut(), dna.clone()));
 					match f(&dna, counting) {
 						Ok(()) => Ok(()),
 						Err(fail) => {
 							if ctx.is_known(&fail) {
 								return Ok(());
+							}
+							if counting {
+								*first.lock().unwrap() = Some((dna.clone(), prev));
 							}
 							failed.store(true, Ordering::Relaxed);
 							ctx.stop.store(true, Ordering::Relaxed);
@@ -656,14 +693,30 @@ where
 					}
 				});
 				if let Err(TestError::Fail(_, dna)) = r {
-					// re-run the minimal case to get its own failure description
-					let fail = match f(&dna, false) {
-						Err(fl) => fl,
-						Ok(()) => last_fail.lock().unwrap().clone().unwrap_or_else(|| Fail::new("flaky", "failure did not reproduce on the shrunk input")),
+					// A failure must be reproducible from the replay file, i.e. from a fresh thread. Shrinking
+					// evaluates near-identical cases back to back, so if peppi keeps hidden state between calls
+					// the shrunk case may fail only because of its predecessor in the shrink sequence. Candidates,
+					// each tried on a brand-new thread: the shrunk case; the case as first generated; that case
+					// preceded by the case that ran before it on this thread.
+					let (first_dna, prev) = first.lock().unwrap().clone().unwrap_or_else(|| (dna.clone(), Vec::new()));
+					let alone = |d: &Vec<u8>| on_fresh_thread(|| f(d, false).err());
+					let chosen: (Vec<u8>, Vec<Vec<u8>>, Fail) = if let Some(fl) = alone(&dna) {
+						(dna, vec![], fl)
+					} else if let Some(fl) = alone(&first_dna) {
+						(first_dna, vec![], fl)
+					} else if let Some(fl) = on_fresh_thread(|| {
+						let _ = f(&prev, false);
+						f(&first_dna, false).err()
+					}) {
+						(first_dna, vec![prev], fl)
+					} else {
+						let mut fl = last_fail.lock().unwrap().clone().unwrap_or_else(|| Fail::new("flaky", "failure did not reproduce"));
+						fl.msg = format!("{} [depends on earlier calls in the same process: it does not reproduce from this case alone, nor after its immediate predecessor]", fl.msg);
+						(first_dna, vec![prev], fl)
 					};
 					let mut g = found.lock().unwrap();
 					if g.is_none() {
-						*g = Some((dna, fail));
+						*g = Some(chosen);
 					}
 				} else if let Err(TestError::Abort(r)) = r {
 					eprintln!("proptest aborted: {}", r);
@@ -672,11 +725,12 @@ where
 		}
 	});
 	let g = found.into_inner().unwrap();
-	g.map(|(dna, fail)| ctx.report(kind, &json!({ "dna": hex(&dna) }), &fail))
+	g.map(|(dna, history, fail)| {
+		let params = if history.is_empty() { json!({ "dna": hex(&dna) }) } else { json!({ "dna": hex(&dna), "history": history.iter().map(|h| hex(h)).collect::<Vec<_>>() }) };
+		ctx.report(kind, &params, &fail)
+	})
 }
 
-/// Deterministic enumeration helper: runs `f(i)` for i in 0..n on WORKERS threads; first failure
-/// (lowest index among those found) is reported.
 pub fn run_enum<F, P>(ctx: &Ctx, kind: &str, n: usize, params: P, f: F) -> Option<String>
 where
 	F: Fn(usize) -> Result<(), Fail> + Sync,
@@ -686,30 +740,60 @@ where
 		return None; // PV_ONLY_DNA: debugging aid, runs only the proptest-driven parts
 	}
 	let next = std::sync::atomic::AtomicUsize::new(0);
-	let found: Mutex<Option<(usize, Fail)>> = Mutex::new(None);
+	let found: Mutex<Option<(usize, Option<usize>, Fail)>> = Mutex::new(None);
+	let run = |i: usize| {
+		crate::props::warmup(warm_key_enum(kind, i));
+		f(i)
+	};
 	std::thread::scope(|s| {
 		for _ in 0..WORKERS {
-			s.spawn(|| loop {
-				let i = next.fetch_add(1, Ordering::Relaxed);
-				if i >= n || found.lock().unwrap().is_some() {
-					break;
-				}
-				if let Err(fail) = f(i) {
-					if ctx.is_known(&fail) {
-						continue;
+			s.spawn(|| {
+				let mut prev: Option<usize> = None;
+				loop {
+					let i = next.fetch_add(1, Ordering::Relaxed);
+					if i >= n || found.lock().unwrap().is_some() {
+						break;
 					}
-					let mut g = found.lock().unwrap();
-					if g.as_ref().map_or(true, |(j, _)| i < *j) {
-						*g = Some((i, fail));
+					if let Err(fail) = run(i) {
+						if ctx.is_known(&fail) {
+							prev = Some(i);
+							continue;
+						}
+						let mut g = found.lock().unwrap();
+						if g.as_ref().map_or(true, |(j, _, _)| i < *j) {
+							*g = Some((i, prev, fail));
+						}
 					}
+					prev = Some(i);
 				}
 			});
 		}
 	});
 	let g = found.into_inner().unwrap();
-	g.map(|(i, fail)| {
+	g.map(|(i, prev, fail)| {
 		ctx.stop.store(true, Ordering::Relaxed);
-		ctx.report(kind, &params(i), &fail)
+		// reproducible from a fresh thread? otherwise record the case that ran before it on its thread
+		let mut p = params(i);
+		let mut fail = fail;
+		match on_fresh_thread(|| run(i).err()) {
+			Some(fl) => fail = fl,
+			None => {
+				if let (Some(j), Some(obj)) = (prev, p.as_object_mut()) {
+					obj.insert("history".into(), json!([j]));
+				}
+				let again = on_fresh_thread(|| {
+					if let Some(j) = prev {
+						let _ = run(j);
+					}
+					run(i).err()
+				});
+				match again {
+					Some(fl) => fail = fl,
+					None => fail.msg = format!("{} [depends on earlier calls in the same process: it does not reproduce from this case alone, nor after its immediate predecessor]", fail.msg),
+				}
+			}
+		}
+		ctx.report(kind, &p, &fail)
 	})
 }
 
